@@ -442,6 +442,36 @@ def root_length(config, nthreads, first):
     return len(sch.trace)
 
 
+def run_pool(nthreads=16, ncalls=64):
+    """Free-running complement (decides nothing by itself, but a difference is a genuine violation): many calls on
+    a real thread pool, sharing the bounds / constraint objects, compared with the same calls made alone."""
+    from concurrent.futures import ThreadPoolExecutor
+    kinds = ["A", "B", "C"]
+    refs = {}
+    for kind in kinds:
+        log = []
+        kw, _ = make_problem(kind, log)
+        refs[kind] = (result_tuple(cobyqa.minimize(**kw)), tuple(log))
+    shared = {"bounds": Bounds(np.array([-2.0]), np.array([3.0])),
+              "lin": LinearConstraint(np.array([[1.0]]), np.array([-np.inf]), np.array([1.0])),
+              "x0": np.array([1.0]), "options": {"maxfev": 6, "nb_points": 3}, "nlc": None}
+
+    def job(i):
+        kind = kinds[i % 3]
+        log = []
+        kw, _ = make_problem(kind, log, shared=shared if kind == "A" else None)
+        return kind, (result_tuple(cobyqa.minimize(**kw)), tuple(log))
+
+    viol = []
+    with ThreadPoolExecutor(nthreads) as ex:
+        for kind, got in ex.map(job, range(ncalls)):
+            if got != refs[kind]:
+                viol.append({"key": "thread-pool-changes-result", "case": {"engine": "pool", "kind": kind},
+                             "what": f"a call of kind {kind} on a {nthreads}-thread pool differs from the same call alone"})
+                break
+    return viol, ncalls
+
+
 # ---------------------------------------------------------------------------------------------- dispatch
 def run_case(item):
     kind = item["kind"] if isinstance(item, dict) and "kind" in item else None
@@ -453,6 +483,9 @@ def run_case(item):
         return {"viol": viol or [], "stats": {"nestings": n}}
     if kind == "threads":
         return run_threads(item["item"])
+    if kind == "pool":
+        viol, n = run_pool()
+        return {"viol": viol, "stats": {"pool_calls": n}}
     if isinstance(item, dict) and item.get("engine") == "nesting":
         viol, n = run_nesting(item["where"], item["j"])
         return {"viol": viol or [], "stats": {}}
@@ -492,6 +525,7 @@ def execute(tier, seed, limit=0):
     for where in ("fun", "con", "cb"):
         for j in range(1, 8):
             items.append({"kind": "nest", "where": where, "j": j})
+    items.append({"kind": "pool"})
     # threads: split the root schedule's steps into ranges
     plans = [(cfg, 2, 1, False) for cfg in CONFIGS]
     if tier == "thorough":
@@ -534,7 +568,8 @@ def execute(tier, seed, limit=0):
         "scheduling_point_kinds": {k[7:]: int(v) for k, v in s.items() if k.startswith("points_")},
         "sequential": {"cases": len(seq), "runs": int(s.get("seq_runs", 0)),
                        "argument_fingerprint_points": int(s.get("fingerprint_points", 0)),
-                       "fresh_process_cases": nfresh, "nestings": int(s.get("nestings", 0))},
+                       "fresh_process_cases": nfresh, "nestings": int(s.get("nestings", 0)),
+                       "free_running_pool_calls_16_threads": int(s.get("pool_calls", 0))},
         "explanation": "the interleavings are executions of the real code under the controlled scheduler, so every "
                        "explored schedule is by construction validated against the implementation",
         "evaluations": int(s.get("schedules", 0) + s.get("seq_runs", 0) + s.get("nestings", 0)),
